@@ -13,6 +13,7 @@ from .. import weaver_common as W
 from ..core import floats
 
 ID = "C08"
+THREADS = True       # part of the cases run concurrently in threads of one interpreter (the schedule dimension)
 MODULES = ["TWV.Properties.C08", "TWV.Properties.C08Commute"]
 RULE = ("random histories (length 0..8) of the ten domain operations (append, shift x/y, scale x/y, normalise x/y, repeat, "
         "truncate by value with absolute / ratio / on-sample bounds, truncate by index) on random series of 4..12 points, "
@@ -192,7 +193,10 @@ def oracle(c, io):
                     else:
                         got = sum(seg_y[j] * (seg_x[j + 1] - seg_x[j]) for j in range(n))
                     want = (ry[q] if refrule == "rectangle" else (ry[q] + ry[q + 1]) / 2) * (rx[q + 1] - rx[q])
-                    sc = sum(max(abs(seg_y[j]), abs(seg_y[j + 1])) * (seg_x[j + 1] - seg_x[j]) for j in range(n)) + abs(want) or 1e-300
+                    # relative to the data's own magnitude over this interval (an all-zero interval next to O(1) data
+                    # legitimately carries rounding residue of the neighbours' size)
+                    sc = (sum(max(abs(seg_y[j]), abs(seg_y[j + 1])) * (seg_x[j + 1] - seg_x[j]) for j in range(n)) + abs(want)
+                          + max(abs(v) for v in ry) * (rx[q + 1] - rx[q])) or 1e-300
                     if abs(got - want) > 1e-7 * sc:
                         return (f"after the history, recreate + match does not reproduce the transformed average of "
                                 f"interval {q}: integral {got!r} vs {want!r}")
